@@ -926,3 +926,13 @@ VARIANTS['C15'] += [
       [('dashlive/server/requesthandler/csrf.py', "        sig.update(bytes(service, 'utf-8'))\n        if strict_origin:\n            sig.update(bytes(origin, 'utf-8'))\n        # logging.debug(\"check_csrf Referer: {}\".format(flask.request.headers['Referer']))\n        sig.update(bytes(salt, 'utf-8'))\n",
         "        for part in ((service, origin, salt) if strict_origin else (service, salt)):\n            sig.update(bytes(part, 'utf-8'))\n")], None),
 ]
+
+VARIANTS['C08'] += [
+    V('refreshes counted over an elapsed time taken before the zero-elapsed back-off',
+      [('dashlive/mpeg/dash/timing.py', "        if self.elapsedTime.total_seconds() == 0:\n", "        elapsed_secs = self.elapsedTime.total_seconds()\n        if self.elapsedTime.total_seconds() == 0:\n"),
+       ('dashlive/mpeg/dash/timing.py', "            num_refreshes = int(\n                self.elapsedTime.total_seconds() // self.minimumUpdatePeriod)", "            num_refreshes = int(elapsed_secs // self.minimumUpdatePeriod)")],
+      'R08.6', 'calculate_live_params'),
+    V('neutral: elapsed seconds named once, after the zero-elapsed back-off',
+      [('dashlive/mpeg/dash/timing.py', "        if self.elapsedTime.total_seconds() < self.timeShiftBufferDepth:\n            self.timeShiftBufferDepth = int(self.elapsedTime.total_seconds())", "        elapsed_secs = self.elapsedTime.total_seconds()\n        if elapsed_secs < self.timeShiftBufferDepth:\n            self.timeShiftBufferDepth = int(elapsed_secs)"),
+       ('dashlive/mpeg/dash/timing.py', "            num_refreshes = int(\n                self.elapsedTime.total_seconds() // self.minimumUpdatePeriod)", "            num_refreshes = int(elapsed_secs // self.minimumUpdatePeriod)")], None),
+]
